@@ -60,15 +60,14 @@ def payeeCanonical (e : Env) (h : Hit) : Bool :=
       tx.code == [] && tx.date2.isNone &&
         (' ' :: (st ++ (String.fromUTF8! ⟨h.name.toArray⟩).toList)).isPrefixOf rest
 
-/-- A `nameRange` computed for the commodity of a directive whose symbol is written in quotes:
-    the range starts at the opening quote but is as long as the symbol without quotes. -/
-def quotedDirective (e : Env) (h : Option Hit) : Bool :=
-  match h with
-  | some hit =>
-    hit.derived && hit.kind == .commodity &&
-    (match e.raw[hit.rng.start.line - 1]? with
-     | some ln => ln[hit.rng.start.col - 1]? == some '"'
-     | none => false)
+/-- The slice stands between two double quotes: it is the inside of a quoted lexeme, not the
+    lexeme (a commodity range must include the quotes, at directive sites as at posting sites). -/
+def insideQuotes (e : Env) (r : NRange) : Bool :=
+  match e.raw[r.sl]? with
+  | some ln =>
+    let a := takeU16 ln r.sc
+    let b := takeU16 ln r.ec
+    a > 0 && ln[a - 1]? == some '"' && ln[b]? == some '"'
   | none => false
 
 /-- Judge one range against the spec.  `h` says what the range is a range of (kind, the lexeme
@@ -81,7 +80,6 @@ def judgeCore (e : Env) (feature : String) (r : NRange) (h : Option Hit) : Optio
   if !rangeOK e.doc r then
     let known :=
       if kind == .payee && !payeeCanonical e h.get! then "payee-estimate"
-      else if quotedDirective e h then "quoted-commodity-directive"
       else ""
     return some (known, s!"{feature}: range {showR r} is not a well-formed range of the document")
   -- on target?
@@ -101,9 +99,8 @@ def judgeCore (e : Env) (feature : String) (r : NRange) (h : Option Hit) : Optio
                 else if name.getLast? == some 32 && s.getLast? == some '\t' && txtBytes s.dropLast == name.dropLast
                   then "account-directive-tab" else "") "an account"
   | .commodity =>
-    if sb == name || sb == [34] ++ name ++ [34] then return none
-    return bad (if quotedDirective e h then "quoted-commodity-directive"
-                else if txtBytes (trimR s) == name then "commodity-text-trailing-blank" else "") "a commodity"
+    if (sb == name && !insideQuotes e r) || sb == [34] ++ name ++ [34] then return none
+    return bad (if txtBytes (trimR s) == name then "commodity-text-trailing-blank" else "") "a commodity"
   | .payee =>
     if sb == name then return none
     return bad (if !payeeCanonical e h.get! then "payee-estimate" else "") "a payee"
